@@ -1353,6 +1353,182 @@ def tracker_execute(case):
 
 
 # ---------------------------------------------------------------------------------------------------------------------
+# Part D: restart runs driven through MainInterface / DatabaseInterface.prepRestartRun
+
+_RESTART_BOUNDS = {"quick": (2, 2), "thorough": (3, 3)}
+
+
+def restart_enum(tier):
+    maxc, maxb = _RESTART_BOUNDS[tier]
+    cases = []
+    for c in range(1, maxc + 1):
+        for b in range(1, maxb + 1):
+            for sc in range(c):
+                for sn in range(b + 1):
+                    if (sc, sn) != (0, 0):  # (0, 0) has no previous time node: not a restart
+                        cases.append({"cycles": c, "burnSteps": b, "startCycle": sc, "startNode": sn})
+    return cases
+
+
+def _run_value(run, c, n):
+    return float(run) + 0.1 * c + 0.01 * n
+
+
+def restart_execute(case):
+    """A complete first run, then a restart run (loadStyle fromDB, reloadDBName = the first run's file) from (startCycle,
+    startNode), both with armi's MainInterface first in the stack (it opens the database and calls prepRestartRun) and a
+    setter interface before the database interface that gives core keff and every block's flux a value that names
+    (run, cycle, node).  An auditor after the database interface calls Operator.loadState in the middle of the restart run."""
+    import h5py
+
+    from armi import interfaces, operators
+    from armi.bookkeeping.db.database import Database
+    from armi.bookkeeping.db.databaseInterface import DatabaseInterface
+    from armi.bookkeeping.mainInterface import MainInterface
+
+    out = Out()
+    cycles, burn, sc, sn = case["cycles"], case["burnSteps"], case["startCycle"], case["startNode"]
+    start = (sc, sn)
+    nodes = [(c, n) for c in range(cycles) for n in range(burn + 1)]
+    merged = [x for x in nodes if x < start]
+    own = [x for x in nodes if x >= start]
+    titles = ["c06r1_%d" % os.getpid(), "c06r2_%d" % os.getpid()]
+    files = [t + ".h5" for t in titles]
+    bpfile = "c06r_%d-blueprints.yaml" % os.getpid()
+    _rm(*files)
+    base = {"nCycles": cycles, "burnSteps": burn, "cycleLength": 100.0, "power": 1.0e6, "availabilityFactor": 0.9}
+    problems = {"n": 0, "probes": 0}
+
+    def run_of(step):
+        return 1 if step < start else 2
+
+    class Setter(interfaces.Interface):
+        name = "setter"
+        run = 1
+
+        def interactEveryNode(self, cycle, node):
+            v = _run_value(self.run, cycle, node)
+            self.r.core.p.keff = v
+            for b in self.r.core.iterBlocks():
+                b.p.flux = 1000.0 * v
+
+    class Auditor(interfaces.Interface):
+        name = "auditor"
+
+        def _expect(self, step, what):
+            r = self.o.r
+            want = _run_value(run_of(step), *step)
+            got = (int(r.p.cycle), int(r.p.timeNode), float(r.core.p.keff), sorted({float(b.p.flux) for b in r.core.iterBlocks()}))
+            problems["probes"] += 1
+            if got != (step[0], step[1], want, [1000.0 * want]):
+                problems["n"] += 1
+                other = _run_value(3 - run_of(step), *step)
+                sig = "restart/loadState-returns-the-other-run" if got[2] == other else "restart/loadState-state"
+                out.fail(sig, "restart from %r, at node %r loadState%r (%s): cycle/node/keff/flux = %r, expected %r"
+                         % (start, self._now, step, what, got, (step[0], step[1], want, [1000.0 * want])))
+
+        def interactEveryNode(self, cycle, node):
+            # the database interface has just written (cycle, node) of this run
+            self._now = (cycle, node)
+            written = [x for x in own if x <= self._now]
+            self.o.r.core.p.keff = -5.0  # a later state change that belongs to no snapshot
+            probes = []
+            if merged:
+                probes += [(merged[0], "merged from the first run"), (merged[-1], "merged from the first run")]
+            probes += [(written[0], "written by this run"), (self._now, "just written by this run")]
+            for step, what in probes:
+                self.o.loadState(step[0], step[1])
+                self._expect(step, what)
+                if out.violations:
+                    break
+            if (int(self.o.r.p.cycle), int(self.o.r.p.timeNode)) != self._now:
+                self.o.loadState(cycle, node)  # carry on from the current state
+
+    def operator(run, extra):
+        # the blueprints file exists next to the settings, so that the database stores the inputs and loadState can rebuild from them
+        with open(bpfile, "w") as f:
+            f.write(rg.render(FAULT_SPEC))
+        cs, bp, r = rg.build(FAULT_SPEC, dict(base, loadingFile=bpfile, **extra))
+        cs.caseTitle = titles[run - 1]
+        r.sort()
+        o = operators.Operator(cs)
+        o.r = r
+        r.o = o
+        setter = Setter(r, cs)
+        setter.run = run
+        o.addInterface(MainInterface(r, cs))
+        o.addInterface(setter)
+        dbi = DatabaseInterface(r, cs)
+        o.addInterface(dbi)
+        if run == 2:
+            o.addInterface(Auditor(r, cs))
+        return cs, bp, o, dbi
+
+    dbis = []
+    try:
+        cs1, bp, o, dbi = operator(1, {})
+        dbis.append(dbi)
+        with o:
+            o.operate()
+        cs2, bp, o, dbi = operator(2, {"loadStyle": "fromDB", "reloadDBName": files[0], "startCycle": sc, "startNode": sn})
+        dbis.append(dbi)
+        with o:
+            o.operate()
+        out.nontrivial = bool(merged) and len(own) >= 1
+        out.evals = 1 + problems["probes"]
+        out.label("layout:%dx%d" % (cycles, burn),
+                  "restart:%s" % ("cycle-boundary" if sn == 0 else "last-node" if sn == burn else "mid-cycle"),
+                  "restart-cycle:%s" % ("0" if sc == 0 else "later"))
+        if out.violations:
+            return out
+        for f in files:
+            if not out.check(os.path.exists(f), "restart/file-missing", "%s is not in the working directory" % f):
+                return out
+        with h5py.File(files[1], "r") as f2, h5py.File(files[0], "r") as f1:
+            out.check(bool(f2.attrs["successfulCompletion"]), "flag/completed-run-not-marked-successful", "the completed restart run is not marked successful")
+            got = sorted(k for k in f2.keys() if k.startswith("c") and k[1:3].isdigit())
+            want = sorted([_group_name(c, n, None) for c, n in nodes] + [_group_name(nodes[-1][0], nodes[-1][1], "EOL")])
+            missing, extra = sorted(set(want) - set(got)), sorted(set(got) - set(want))
+            mnames = {_group_name(c, n, None) for c, n in merged}
+            if missing and not extra and set(missing) <= mnames:
+                sig = "restart/merged-step-missing"
+            elif missing and not extra:
+                sig = "restart/own-node-missing"
+            else:
+                sig = "restart/steps"
+            if not out.check(got == want, sig, lambda: "restart from %r: the finished restart database holds %r, expected %r (missing %r, extra %r)"
+                             % (start, got, want, missing, extra)):
+                return out
+            for (c, n) in merged:
+                nm = _group_name(c, n, None)
+                d = _tree_diff(_h5_tree(f1[nm]), _h5_tree(f2[nm]))
+                if d is None and _top_attrs(f1[nm]) != _top_attrs(f2[nm]):
+                    d = "group attributes differ"
+                if d is not None:
+                    out.fail("restart/merged-content", "step %s merged for the restart from %r differs from the first run's: %s" % (nm, start, d))
+                    break
+            for (c, n) in own:
+                v = float(f2[_group_name(c, n, None) + "/Core/keff"][()].reshape(-1)[0])
+                if v != _run_value(2, c, n):
+                    out.fail("restart/own-node-value", "restart run node (%d, %d) holds keff %r, the run set %r" % (c, n, v, _run_value(2, c, n)))
+                    break
+        db = Database(files[1], "r")
+        with db:
+            for step in ([merged[-1]] if merged else []) + [own[0], own[-1]]:
+                r2 = db.load(step[0], step[1], cs=cs2, bp=bp)
+                want = _run_value(run_of(step), *step)
+                out.check(float(r2.core.p.keff) == want, "restart/loaded-value", lambda: "load%r from the finished restart database: keff %r, expected %r" % (step, float(r2.core.p.keff), want))
+    finally:
+        for dbi in dbis:
+            if dbi._db is not None and dbi._db.isOpen():
+                dbi._db.close(False)
+        _rm(*files)
+        if os.path.exists(bpfile):
+            os.remove(bpfile)
+    return out
+
+
+# ---------------------------------------------------------------------------------------------------------------------
 # shapes of candidate armi defects, kept observable (the search avoids them by construction, see EXCLUDE_KNOWN)
 
 KNOWN_SHAPES = ["unstored-component-parameter", "by-location-of-location", "split-renumbered-history"]
@@ -1465,7 +1641,7 @@ PARTS = [
               "an existing snapshot, load, keys/genTimeSteps/hasTimeStep, getHistory/getHistories/getHistor(y|ies)ByLocation on Database and "
               "DatabaseInterface incl. location, close+reopen, mergeHistory into a fresh file, splitDatabase); model {(c,n,label): observe at "
               "write}; listing checked after every step; non-trivial = a load of, or history over, >= 2 snapshots with a state change after a write"),
-    Part("faults", _guarded(fault_execute), enumerate=fault_enum, exhaustive=True, procs={"quick": 7, "thorough": 16},
+    Part("faults", _guarded(fault_execute), enumerate=fault_enum, exhaustive=True, procs={"quick": 6, "thorough": 16},
          rule="complete enumeration: every cycle layout within the bound, with and without tight coupling (with it: no, one or all cycles listed in "
               "cyclesSkipTightCouplingInteraction; every node is still written exactly once), the fault-free run and one run per "
               "(hook in BOL/BOC/EveryNode/Coupled/EOC/EOL, recorder position before/after the database interface, cycle, node) with an "
@@ -1481,6 +1657,15 @@ PARTS = [
               "the recorder's own log of the value at that write, the current unwritten step the live value; the EOL report lists every "
               "written step; non-trivial = the run asked about a current, already written step and about past steps",
          bound=lambda t: "cycles <= %d, burn steps <= %d (plus 1 cycle x 0 steps)" % _BOUNDS[t]),
+    Part("restart", _guarded(restart_execute), enumerate=restart_enum, exhaustive=True, procs={"quick": 2, "thorough": 8},
+         rule="every layout within the bound x every restart point except (0,0): a complete first run, then a restart run (loadStyle "
+              "fromDB, reloadDBName = first file) through MainInterface -> DatabaseInterface.prepRestartRun; a setter before the database "
+              "interface gives keff/flux values naming (run, cycle, node); after every node write of the restart run an auditor calls "
+              "Operator.loadState for the first and last merged step, the first step this run wrote and the current one; oracle: "
+              "loadState returns this run's state for steps this run wrote and the first run's for merged ones; the finished restart "
+              "file is marked successful, lists exactly merged steps + own nodes + EOL, merged groups are byte-identical to the first "
+              "file, own nodes hold run-2 values; non-trivial = at least one merged step",
+         bound=lambda t: "cycles <= %d, burn steps 1..%d, every (startCycle, startNode) != (0, 0)" % _RESTART_BOUNDS[t]),
     Part("known_shapes", _guarded(known_execute), enumerate=known_enum, exhaustive=False, procs={"quick": 1, "thorough": 1},
          rule="the three shapes the histories part avoids by construction (history of a never-assigned parameter of a Component subclass; "
               "by-location history of 'location'; history after a renumbering splitDatabase), each on a hex and a Cartesian reactor, so that "
